@@ -173,6 +173,7 @@ type resultM struct {
 }
 
 type lineM struct {
+	PB      int      `json:"pb"`
 	Ev      string   `json:"ev"`
 	I       uint64   `json:"i"`
 	Seed    uint64   `json:"seed"`
@@ -503,6 +504,45 @@ func (x *c17) sweep(a *agg, deadline time.Time, workers int, chunk uint64, maxRu
 		}()
 	}
 	wg.Wait()
+}
+
+// pb1 runs the bounded systematic search: small two-task cases, each under
+// every schedule with exactly one preemption (capped per case).
+func (x *c17) pb1(a *agg, nCases int, cap int) (cases, schedules int) {
+	base := uint64(1) << 42
+	var mu sync.Mutex
+	var wg sync.WaitGroup
+	sem := make(chan struct{}, 16)
+	for i := 0; i < nCases; i++ {
+		wg.Add(1)
+		sem <- struct{}{}
+		go func(i int) {
+			defer wg.Done()
+			defer func() { <-sem }()
+			idx := base + uint64(i)
+			po := x.spawn(1, 600*time.Second, "-base", fmt.Sprint(x.e.seed), "-from", fmt.Sprint(idx), "-to", fmt.Sprint(idx+1), "-profile", "mixed", "-pb1", fmt.Sprint(cap))
+			mu.Lock()
+			defer mu.Unlock()
+			for k := range po.lines {
+				l := &po.lines[k]
+				if l.Ev == "pb1" || (l.Ev == "end" && l.PB > 0) {
+					cases++
+					schedules += l.PB
+				}
+			}
+			f, tr := failureOf(po)
+			if tr != "" {
+				a.troubleS = tr
+				return
+			}
+			if f != nil {
+				f.ProcFrom = idx
+				a.failures = append(a.failures, f)
+			}
+		}(i)
+	}
+	wg.Wait()
+	return
 }
 
 // runCaseFile executes one explicit case in a fresh process.
@@ -1028,6 +1068,16 @@ func mainC17(e *env) {
 	if a.troubleS != "" {
 		trouble(e, "%s", a.troubleS)
 	}
+	pbCases, pbCap := 16, 600
+	if e.tier == "thorough" {
+		pbCases, pbCap = 160, 6000
+	}
+	t2 := time.Now()
+	pbC, pbS := x.pb1(a, pbCases, pbCap)
+	if a.troubleS != "" {
+		trouble(e, "%s", a.troubleS)
+	}
+	fmt.Printf("  bounded systematic search: %d two-task cases, each under every single-preemption schedule (cap %d): %d schedules in %.1fs\n", pbC, pbCap, pbS, time.Since(t2).Seconds())
 	fmt.Printf("  sweep: %d runs in %.1fs (%.0f runs/hour), %d ops, %d steps, %d preemptions, %d distinct lock interleavings (%d with a preemption inside a splat window), %d failures\n",
 		a.runs, sweepS, float64(a.runs)/sweepS*3600, a.ops, a.steps, a.preempt, len(a.inter), len(a.interWin), len(a.failures))
 
@@ -1149,6 +1199,8 @@ func mainC17(e *env) {
 		"lock_events":                   a.syncEv,
 		"distinct_lock_interleavings":   len(a.inter),
 		"distinct_preemption_shapes":    len(a.shapes),
+		"pb1_cases":                     pbC,
+		"pb1_single_preemption_schedules": pbS,
 		"determinism_pairs_identical":   pairs,
 		"determinism_gomaxprocs":        []int{1, 1, 4, 16},
 		"replayed_schedules_identical":  rchk,
